@@ -1,24 +1,32 @@
 //! Verification hooks, compiled only under `--cfg helgoboss_midi_verif`.
 //!
 //! Provides a drop-in replacement for the two `std::time::Instant` operations used by the polling
-//! (N)RPN scanner (`now` and `elapsed`), backed by a thread-local millisecond counter that a test
-//! harness drives explicitly. Without the cfg flag this module does not exist and the crate is
-//! built exactly as before.
+//! (N)RPN scanner (`now` and `elapsed`), backed by a thread-local tick counter that a test harness
+//! drives explicitly. One tick is one millisecond unless the clock is set with `set_now_ticks` (a
+//! finer tick lets a harness place polls between whole milliseconds). Without the cfg flag this module
+//! does not exist and the crate is built exactly as before.
 use core::time::Duration;
 use std::cell::Cell;
 
 thread_local! {
     static NOW_MILLIS: Cell<u64> = const { Cell::new(0) };
+    static TICK_NANOS: Cell<u64> = const { Cell::new(1_000_000) };
 }
 
-/// Returns the current value of this thread's mock clock in milliseconds.
+/// Sets this thread's mock clock to `ticks` ticks of `tick_nanos` nanoseconds each.
+pub fn set_now_ticks(ticks: u64, tick_nanos: u64) {
+    NOW_MILLIS.with(|n| n.set(ticks));
+    TICK_NANOS.with(|n| n.set(tick_nanos));
+}
+
+/// Returns the current value of this thread's mock clock in ticks (milliseconds by default).
 pub fn now_millis() -> u64 {
     NOW_MILLIS.with(|n| n.get())
 }
 
-/// Sets this thread's mock clock (milliseconds).
+/// Sets this thread's mock clock in milliseconds (one tick = 1 ms).
 pub fn set_now_millis(millis: u64) {
-    NOW_MILLIS.with(|n| n.set(millis));
+    set_now_ticks(millis, 1_000_000);
 }
 
 /// Mock instant: a reading of the thread-local mock clock.
@@ -33,6 +41,8 @@ impl Instant {
 
     /// Time passed on the mock clock since this instant was taken.
     pub fn elapsed(&self) -> Duration {
-        Duration::from_millis(now_millis().saturating_sub(self.0))
+        let ticks = now_millis().saturating_sub(self.0) as u128;
+        let nanos = ticks * TICK_NANOS.with(|n| n.get()) as u128;
+        Duration::new((nanos / 1_000_000_000) as u64, (nanos % 1_000_000_000) as u32)
     }
 }
